@@ -37,7 +37,7 @@ SITE_RE = re.compile(
     r"|(?P<gaugeInc>\bbumpSess\s*\(\s*\))|(?P<idAlloc>\b_nextSessionId\s*\+\+|\+\+\s*_nextSessionId|_nextSessionId\s*\.\s*fetch_add\s*\()"
     r"|(?P<acceptCb>\bacceptCb\s*\()|(?P<connectCb>\bconnectCb\s*\()|(?P<dataCb>\bdataCb\s*\()"
     r"|(?P<pendingClear>(?:->|\.)\s*connectPending\s*=\s*false\b)"
-    r"|(?P<gaugeSet>\bsessionsCurrent\s*\.\s*(?:store|exchange)\s*\(|\bsessionsCurrent\s*=[^=])")
+    r"|(?P<gaugeSet>_atomicStats\s*\.\s*sessionsCurrent\s*(?:\.\s*(?:store|exchange)\s*\(|=[^=]))")
 
 CTRL = ("if", "else", "for", "while", "switch", "do", "try", "catch")
 JUMP_RE = re.compile(r"\b(return|continue|break|throw)\b")
